@@ -4,6 +4,7 @@ import (
 	"io"
 	"io/fs"
 	"os"
+	"path/filepath"
 
 	experimentalsys "github.com/tetratelabs/wazero/experimental/sys"
 	"github.com/tetratelabs/wazero/internal/fsapi"
@@ -251,6 +252,26 @@ func (f *osFile) Readdir(n int) (dirents []experimentalsys.Dirent, errno experim
 
 	if dirents, errno = readdir(f.file, f.path, n); errno != 0 {
 		errno = adjustReaddirErr(f, f.closed, errno)
+		return
+	}
+
+	// os.File.Readdir drops the names that vanished since it buffered them, and when that empties a batch
+	// it reports the end of the directory. No entries means the end to our callers too, so make sure: the
+	// names themselves tell (reading them drops nothing).
+	for n > 0 && len(dirents) == 0 {
+		names, _ := f.file.Readdirnames(1)
+		if len(names) == 0 {
+			break // the end of the directory, really.
+		}
+		fi, err := os.Lstat(filepath.Join(f.path, names[0]))
+		if err != nil {
+			continue // vanished as well.
+		}
+		ino, errno := inoFromFileInfo(f.path, fi)
+		if errno != 0 {
+			return nil, errno
+		}
+		dirents = append(dirents, experimentalsys.Dirent{Name: fi.Name(), Ino: ino, Type: fi.Mode().Type()})
 	}
 	return
 }
